@@ -105,6 +105,11 @@ for _op in c17.OPS:
 from . import c04 as _c04r   # noqa: E402
 share('C04', 'C01', 'R', lambda n: n.startswith('R1.route_hops_'))
 
+
+# ---------------------------------------------------------------- pool creation next to a funded pool (the creation-fee obligations of C16, shared)
+from . import c16 as _c16p   # noqa: E402
+share('C16', 'C01', 'P', lambda n: n.startswith('S1.create_pool_fees_tf_'))
+
 from . import lockdep   # noqa: E402,F401  (locked deposits: LP goes to the farm manager, reserves stay backed)
 
 from . import stable3   # noqa: E402,F401  (three-asset stableswap accounting obligations registered for this property)
